@@ -5,7 +5,7 @@ from the component's metadata after the translation pass ran): every width comes
 every constant from `node._value`.  The only thing this converter adds is the name of sub-component /
 interface signals (`s.c[1].out` -> `c__out[1]`, `s.ifc.msg` -> `ifc__msg`), spelled as
 VBehavioralTranslatorL4/L5.visit_Attribute/visit_Index do (pending indices are appended to the first
-port-typed node).  Shapes outside `RExpr` raise `Unmodelled` (the tie is skipped for that block; the
+node that is a port or a list of ports).  Shapes outside `RExpr` raise `Unmodelled` (the tie is skipped for that block; the
 simulation comparison still covers it).
 """
 from collections import deque
@@ -119,7 +119,12 @@ class Conv:
         name = base[1] + '__' + n.attr
         if isinstance(T, rt.Array):
           sub = T.get_sub_type()
-          if isinstance(sub, (rt.Port, rt.Wire)): return ('sig', name, int(sub.get_dtype().get_length()))
+          if isinstance(sub, rt.Port):
+            # process_unpacked_q (as repaired, F21): the pending sub-component / interface indices follow the name
+            # of the port also when the port is a (multi-dimensional) list of ports
+            w = int(sub.get_dtype().get_length())
+            return self.flush(('sig', name, w), w)
+          if isinstance(sub, rt.Wire): return ('sig', name, int(sub.get_dtype().get_length()))
           return ('scope', name)
         if isinstance(T, (rt.InterfaceView, rt.Component)): return ('scope', name)
         if isinstance(T, rt.Port): return self.flush(('sig', name, width(n)), width(n))
